@@ -72,6 +72,8 @@ pub struct Profile {
     pub pk_constraint_pct: u64,
     /// Per 100: the run uses table / column names with multi-byte characters.
     pub unicode_names_pct: u64,
+    /// Invalid statements include odd CREATE TABLEs (reserved column name, no columns, ...).
+    pub odd_ddl: bool,
     /// Primary keys only at column 0 (what the storage range scan supports).
     pub pk_first_only: bool,
     /// Projections of range queries keep the key column first.
@@ -107,6 +109,7 @@ impl Profile {
             same_key_type_pct: 0,
             pk_constraint_pct: 0,
             unicode_names_pct: 0,
+            odd_ddl: false,
             pk_first_only: false,
             key_first_projection: false,
         }
@@ -819,6 +822,16 @@ impl<'a> Gen<'a> {
 
     fn invalid_stmt(&mut self) -> Stmt {
         let existing = self.pick_table();
+        if self.prof.odd_ddl && self.rng.chance(1, 3) {
+            // statements the engine must reject (or survive) without lasting damage
+            self.next_obj += 1;
+            let n = self.next_obj;
+            return Stmt::Raw(match self.rng.usize(3) {
+                0 => format!("CREATE TABLE odd{n} (_rowid_ INT, c1 INT)"),
+                1 => format!("CREATE TABLE odd{n} (); INSERT INTO odd{n} VALUES (1)"),
+                _ => format!("CREATE TABLE odd{n} (c0 INT, c0 INT)"),
+            });
+        }
         match (self.rng.usize(5), existing) {
             (0, Some(t)) => {
                 // duplicate table
